@@ -22,7 +22,7 @@ from . import exprs
 from .values import (freeze, NONE, OutOfSubset, V, VBool, VComp, VDict, VFam, VFunc, VGraph, VInt, VModule, VNode, VNone,
                      VNx, VObj, VOpaque, VPos, VSeq, VSet, VStr, VTuple)
 
-MAX_INLINE_DEPTH = 6
+MAX_INLINE_DEPTH = 9
 MAX_PATHS = 400
 
 
